@@ -78,7 +78,8 @@ RefParseBuf(s, m) ==
   IF s = <<>> THEN [ok |-> FALSE, val |-> <<>>, n |-> 0, err |-> "empty"]
   ELSE LET p == DigitPrefixLen(s, 1) IN
     IF p = 0 THEN [ok |-> FALSE, val |-> <<>>, n |-> 0, err |-> "first"]
-    ELSE LET o == FirstOverflow(s, 1, p, m) IN
+    \* (a prefix shorter than MaxInt's digit string cannot overflow, so the search starts there)
+    ELSE LET o == FirstOverflow(s, MaxOf(1, Len(m)), p, m) IN
       IF o = 0 THEN [ok |-> TRUE, val |-> Strip(SubSeq(s, 1, p)), n |-> p, err |-> "nil"]
       ELSE [ok |-> FALSE, val |-> <<>>, n |-> o - 1, err |-> "toolong"]
 
